@@ -77,8 +77,13 @@ def run(cx):
     R = cx.R
     mode_table(cx)
 
-    # C12.b drop guard ---------------------------------------------------------------------------
-    with cx.instance("C12.b", "T1 GUARD + T7", "stale drop only for TimeSensitive with flush_id != current; step bumps flush_id; send stamps it", floor=4) as inst:
+    drop_guard(cx, "C12.b")
+    rest_of_c12(cx)
+
+
+def drop_guard(cx, iid):
+    R = cx.R
+    with cx.instance(iid, "T1 GUARD + T7", "stale drop only for TimeSensitive with flush_id != current; step bumps flush_id; send stamps it", floor=4) as inst:
         b = R.body("PacketSender::emit_packet")
         q = r"VecDeque::front\(arg1\.packet_send_queue\)"
         # the pop inside the drop loop = pop_front whose result is dropped, not unwrapped
@@ -111,6 +116,10 @@ def run(cx):
             if a != "arg1.flush_id":
                 inst.violation(sn.path, "enqueue_packet flush_id", "packet stamped with `%s`, expected the connection's current flush_id" % a, at=sn.span_at(loc))
 
+
+
+def rest_of_c12(cx):
+    R = cx.R
     # C12.c resend flag guards -------------------------------------------------------------------------
     with cx.instance("C12.c", "T1 GUARD", "resend_queue.push in the pending loop requires entry.resend; resend_refs.push requires the resend argument", floor=3) as inst:
         b = R.body(EMIT)
